@@ -119,7 +119,8 @@ PROPS = {
                       'each-key-once, completeness and soundness w.r.t. the original streams. StreamHeap::{new,pop,peek_is_duplicate,'
                       'pop_if_equal,pop_if_le,refill,num_slots} and Slot::{new,set_input,set_output} are verified on their real bodies.',
         'level_note': 'Trusted: a contract for std BinaryHeap on a ghost bag (pop/peek return a maximum), Slot order = reverse '
-                      'lexicographic (key, output) (tuple Ord from std), each user stream modelled by its abstract remainder rest() (the '
+                      'lexicographic (key, output) (an axiom of unit heap; checked on the real impl Ord / PartialOrd by the Kani harness slot_order for all '
+                      'keys of up to 3 bytes and all outputs - bounded by the key length), each user stream modelled by its abstract remainder rest() (the '
                       'property premise: strictly increasing keys). The ops unit sees the heap through contracts that are CONTRACT-OF-identical '
                       'to the ones unit heap verifies. Fst::{op, is_disjoint, is_subset, is_superset} and OpBuilder::add are verified on their real '
                       'bodies: the counting loops are related to the number of keys two sorted streams share / hold together (merge recursion), '
